@@ -86,8 +86,10 @@ def run_pair(ctx, drv, scs, props, name, parallel=48, classify=None, what='TCP b
     ctx.extra['pinned_iss_scenarios'] = ctx.extra.get('pinned_iss_scenarios', 0) + sum(1 for sc in scs if (sc.get('a') or {}).get('iss'))
     inconclusive = [i for i, s in enumerate(segs) if s[-1].get('ev') == 'end' and s[-1].get('why') in ('deadline', 'connect-timeout', 'accept-timeout')]
     unfinished = len(inconclusive)
-    if judge_unfinished:
-        inconclusive = []
+    # A scenario that ran into its deadline (or never connected) is still a trace of real behaviour: every clause except the
+    # end-of-scenario one (End, why = "done") is a safety clause that holds on prefixes, so it is judged too.  (Until the
+    # third round of seeded changes such traces were skipped: a sender that corrupts the stream AND stalls went unnoticed.)
+    inconclusive = []
     ok_idx = [i for i in range(len(scs)) if i not in inconclusive and not any(e.get('ev') == 'panic' for e in segs[i])]
     tc = tcfg(props)
     # Validation in passes: findings the spec can step over (KF_FLAG) that are known and hit once are switched on for every
@@ -290,34 +292,63 @@ def is_f14(sc, seg, ln):
     return ev['iplen'] > mtu and ev['iplen'] - (8 * len(ev['sack']) + 4) <= mtu
 
 
-def is_f27(sc, seg, ln):
-    """F27: an ACK that lands in the MIDDLE of a sent segment trims the payload of the queued segment but not its sequence
-    number: the remainder is (re)transmitted under the old sequence number.  Shape: a data emission that starts exactly at
-    the start of an earlier emitted segment which an ACK that had arrived acknowledged partially (start < ack < end), i.e.
-    it starts below the highest acknowledgement received."""
+def is_f28(sc, seg, ln):
+    """F28: a segment FIRST sent while a fast recovery was in progress is never fast-retransmitted (the stack moves its NewReno
+    recover mark to SND.NXT-1 when the recovery ends).  Cause-side shape: at the rejected event (the arrival that follows the
+    third strict duplicate ACK, or a data emission that is not the mandated retransmission) the endpoint e has received >= 3
+    strict duplicate ACKs (same ack, no data, unchanged window, data outstanding) for the segment at SND.UNA, and that
+    segment's first emission lies INSIDE a fast-recovery episode: after a fast retransmission (a retransmission of the head
+    that followed >= 3 duplicate ACKs) and before the arrival of the ACK that went past that episode's recover point (the
+    highest sequence number on the wire when the episode started).  A missing fast retransmit for any other segment is not matched."""
     ev = seg[ln] if ln < len(seg) else {}
-    if ev.get('ev') != 'emit' or ev.get('len', 0) <= 0:
+    if ev.get('ev') == 'arrive':
+        e = ev.get('to')
+    elif ev.get('ev') == 'emit' and ev.get('len', 0) > 0:
+        e = ev.get('e')
+    else:
         return False
-    e, seq = ev['e'], ev['seq']
-    sent, part, hi = [], set(), 0
-    for x in seg[:ln]:
+    sent = []                  # (seq, end, index) of data emissions of e
+    first = {}                 # seq -> index of the first emission that carried the byte seq (filled lazily)
+    una, dups, loose, lastw = 1, 0, 0, None      # dups: strict count (as the spec counts); loose: same ack, no data
+    emitmax = 1
+    episodes = []              # [start index, recover (seq just beyond the highest byte sent at the start), end index or None]
+    for k, x in enumerate(seg[:ln]):
         if x['ev'] == 'emit' and x.get('e') == e and x.get('len', 0) > 0:
-            sent.append((x['seq'], x['seq'] + x['len']))
-        elif x['ev'] == 'arrive' and x.get('to') == e and 'A' in x.get('flags', '') and 'S' not in x.get('flags', '') and x.get('ack', -1) > -900000:
+            s0, s1 = x['seq'], x['seq'] + x['len']
+            covered = any(a <= s0 < b for a, b, _ in sent)
+            if covered and s0 == una and loose >= 3 and (not episodes or episodes[-1][2] is not None):
+                episodes.append([k, emitmax, None])
+            sent.append((s0, s1, k))
+            emitmax = max(emitmax, s1)
+        elif x['ev'] == 'arrive' and x.get('to') == e and 'A' in x.get('flags', '') and 'S' not in x.get('flags', '') and 'R' not in x.get('flags', '') \
+                and x.get('ack', -1) > -900000:
             a = x['ack']
-            if not sent or a > max(s1 for _, s1 in sent) + 1:
-                continue
-            if a > hi:
-                part.update(s0 for s0, s1 in sent if s0 < a < s1)
-                hi = a
-    return seq in part and seq < hi
+            if a > emitmax + 1:
+                dups, lastw = 0, x['wnd']
+            elif a > una:
+                una, dups, loose, lastw = a, 0, 0, x['wnd']
+                if episodes and episodes[-1][2] is None and a >= episodes[-1][1]:
+                    episodes[-1][2] = k
+            elif a == una and x.get('len', 0) == 0 and 'F' not in x.get('flags', '') and emitmax > a:
+                dups = dups + 1 if x['wnd'] == lastw else 0
+                loose += 1
+                lastw = x['wnd']
+            else:
+                dups, lastw = 0, x['wnd']
+    if dups < 3:
+        return False
+    firsts = [k for s0, s1, k in sent if s0 <= una < s1]
+    if not firsts:
+        return False
+    f0 = min(firsts)
+    return any(st < f0 and end is not None and f0 < end and una >= rec for st, rec, end in episodes)
 
 
-KF_FLAG = {'F4': 'kf_f4', 'F7': 'kf_f7', 'F14': 'kf_f14'}      # findings the spec can step over so that the rest of the trace is still judged
+KF_FLAG = {'F4': 'kf_f4', 'F7': 'kf_f7', 'F14': 'kf_f14', 'F28': 'kf_f28'}      # findings the spec can step over so that the rest of the trace is still judged
 
 
 def classify_all(sc, seg, ln):
-    for key, fn in (('F1', is_f1), ('F4', is_f4), ('F14', is_f14), ('F5', is_f5), ('F27', is_f27), ('F7', is_f7)):
+    for key, fn in (('F1', is_f1), ('F4', is_f4), ('F14', is_f14), ('F5', is_f5), ('F28', is_f28), ('F7', is_f7)):
         try:
             if fn(sc, seg, ln):
                 return key
